@@ -136,7 +136,7 @@ class P:
                 if depth == 0:
                     return
                 depth -= 1
-            elif depth == 0 and v in (",", "=", ";", "{", ")", "=>"):
+            elif depth == 0 and v in (",", "=", ";", "{", ")", "=>", "|"):
                 return
             self.next()
 
